@@ -4,6 +4,7 @@
 cd /verif
 for d in seeded/*/; do
   name=$(basename $d); prop=${name%%-*}; slug=${name#*-}
+  if ls replays/$prop/*/$slug.json >/dev/null 2>&1 && [ -z "${FORCE:-}" ]; then continue; fi
   if ! git -C /repo diff --quiet; then echo "/repo dirty"; exit 3; fi
   git -C /repo apply /verif/${d}patch.diff || { echo "SKIP $name (patch does not apply)"; continue; }
   rm -f out/replay/$prop-*.json
